@@ -377,7 +377,7 @@ PROPERTIES = {
         "note": "Trusted: Verus/Z3, extraction rules R1,R4,R4d,R12,R13 + ghost hints (erased). The induction hypothesis the arms use for their recursive calls (gen_post in prelude_compiler.rs: on success append-only, peephole invariant kept, loop nesting restored, only well-formed stop jumps recorded, constants only grow, scope shape restored) is PROVED: every arm and compile_block_statement ensure it (lemmas genpost_lemmas.rs), and unit c02_dispatch verifies compile_expression / compile_statement as whole functions (real match, every arm outlined, rule R15) against it. Residual assumption: an Infix node carries a binary operator (parser fact; otherwise compile_operator panics). NOT decided: the VALUE of a branch / absence of residue per iteration (needs stack typing of the emitted code), antwoord from nested depth (composition with C12).",
         "design_ref": "DESIGN.md 3.8",
         "undecided": ["which VALUE a branch leaves (only that it leaves exactly one)", "heights at stop / volgende jumps: KNOWN FINDING O11.h (residue when compiled under pending temporaries)"],
-        "assumptions": ["every Infix node carries a binary operator (precondition of the dispatcher obligation O02.ind; parser fact)", "termination of the recursive generators (structural recursion over the tree; Verus checks partial correctness of exec code)"],
+        "assumptions": ["every Infix node carries a binary operator (precondition of the dispatcher obligation O02.ind): proved of the only two places that build Infix nodes, parse_infix_expr and parse_op_assign_expression (O07.2a, O07.3, with O07.2b: only binary-operator tokens reach them); that no other code builds Infix nodes is by reading", "termination of the recursive generators (structural recursion over the tree; Verus checks partial correctness of exec code)"],
     },
     "C10": {
         "level": "proof",
@@ -385,7 +385,7 @@ PROPERTIES = {
         "note": "Trusted: Verus/Z3, Kani/CBMC, extraction rules R1,R1p,R4; helper contracts emit_* (O02.emit). Assumed: Infix nodes carry a binary operator (parser guarantee). NOT decided: equivalence of whole programs under the four transformations (relational; needs the compile-side half of C02).",
         "design_ref": "DESIGN.md 3.7",
         "undecided": ["whole-program equivalence under globals<->locals / literal<->variable / mirroring / constant-pool shifts (composition)"],
-        "assumptions": ["every Infix node carries a binary operator (parser fact; precondition of arm_infix and of the dispatcher obligation O02.ind)"],
+        "assumptions": ["every Infix node carries a binary operator (precondition of arm_infix / O02.ind): proved of the two places that build Infix nodes (O07.2a, O07.3); that there is no third place is by reading"],
     },
     "C12": {
         "level": "proof",
